@@ -211,6 +211,18 @@ Section Exit.
     - left. split; reflexivity.
     - right. split; [reflexivity|]. destruct stdin; [discriminate|]. cbn in R. discriminate.
   Qed.
+
+  (* the repaired driver (F34 fixed): no exclusion *)
+  Theorem exit0_one_object_else_none_fixed34 : forall m of stdin flags prog,
+    let r := cli_run_fixed34 eval m of stdin flags prog in
+    (cr_exit r = Some 0 /\ exists o, one_object of r o) \/
+    (cr_exit r <> Some 0 /\ no_object r).
+  Proof.
+    intros m of stdin flags prog. cbv zeta.
+    destruct m; cbn [cli_run_fixed34];
+      try (apply exit0_one_object_else_none; reflexivity).
+    right. split; [discriminate|split; reflexivity].
+  Qed.
 End Exit.
 
 (* ====================================================================================== *)
@@ -316,50 +328,39 @@ Section Outputs.
     - eapply ext_lookup; eauto.
   Qed.
 
-  (* Program.exec_stmt's `decl`, named *)
-  Definition decl_of (e : expr) (fr' : frames) (r : outcome value) : option (string * value) :=
-    match e with
-    | EId x | EOutput (EId x) => match lookup fr' x with Some v => Some (x, v) | None => None end
-    | EAssign x _ | EOutput (EAssign x _) => match r with Ok v => Some (x, v) | _ => None end
-    | _ => None
-    end.
-
-  Lemma exec_stmt_SOut : forall s e,
-    exec_stmt eval s (SOut e) =
-    let '(r, c') := eval (s_cfg s) e in
-    let '(st', fr') := c' in
-    match decl_of e fr' r with
-    | Some (x, v) =>
-        if validate_portable st' fr' v
-        then ({| s_cfg := c'; s_outputs := out_insert (s_outputs s) x v |},
-              match r with Ok w => ROk w | o => RFail o end)
-        else ({| s_cfg := c'; s_outputs := s_outputs s |}, ROutErr)
-    | None =>
-        ({| s_cfg := c'; s_outputs := s_outputs s |},
-         match r with Ok w => ROk w | o => RFail o end)
-    end.
+  (* a successful output declaration of a binding: what exec_stmt does.  (Stated without
+     restating Program.exec_stmt's `decl`, so that it survives the repair of F33 there.) *)
+  Lemma exec_stmt_SOut_ok : forall s e w st1 fr1,
+    eval (s_cfg s) e = (Ok w, (st1, fr1)) -> binding_decl (SOut e) = true ->
+    exists x v, decl_name (SOut e) = Some x /\ lookup fr1 x = Some v /\
+      exec_stmt eval s (SOut e) =
+        if validate_portable st1 fr1 v
+        then ({| s_cfg := (st1, fr1); s_outputs := out_insert (s_outputs s) x v |}, ROk w)
+        else ({| s_cfg := (st1, fr1); s_outputs := s_outputs s |}, ROutErr).
   Proof.
-    intros s e. cbn [exec_stmt]. destruct (eval (s_cfg s) e) as [r [st' fr']].
-    destruct e; try reflexivity; destruct e; reflexivity.
-  Qed.
-
-  Lemma decl_of_binding : forall c e w st1 fr1,
-    eval c e = (Ok w, (st1, fr1)) -> binding_decl (SOut e) = true ->
-    exists x v, decl_name (SOut e) = Some x /\ decl_of e fr1 (Ok w) = Some (x, v) /\
-                lookup fr1 x = Some v.
-  Proof.
-    intros c e w st1 fr1 E Hb.
+    intros s e w st1 fr1 E Hb. cbn [exec_stmt]. rewrite E.
     destruct e; cbn [binding_decl] in Hb; try discriminate.
     - (* EId *) apply negb_true_iff in Hb. pose proof (eval_id _ _ _ _ E Hb) as L. cbn [snd] in L.
-      eexists; eexists. cbn [decl_name decl_of]. rewrite L. auto.
+      eexists; eexists; cbn [decl_name]; split; [reflexivity|split; [exact L|try rewrite L; reflexivity]].
     - (* EAssign *) pose proof (eval_assign _ _ _ _ _ E) as L. cbn [snd] in L.
-      eexists; eexists. cbn [decl_name decl_of]. auto.
-    - (* EOutput *) rewrite eval_output in E.
+      eexists; eexists; cbn [decl_name]; split; [reflexivity|split; [exact L|reflexivity]].
+    - (* EOutput *) pose proof E as E'. rewrite eval_output in E'.
       destruct e; cbn [binding_decl] in Hb; try discriminate.
-      + apply negb_true_iff in Hb. pose proof (eval_id _ _ _ _ E Hb) as L. cbn [snd] in L.
-        eexists; eexists. cbn [decl_name decl_of]. rewrite L. auto.
-      + pose proof (eval_assign _ _ _ _ _ E) as L. cbn [snd] in L.
-        eexists; eexists. cbn [decl_name decl_of]. auto.
+      + apply negb_true_iff in Hb. pose proof (eval_id _ _ _ _ E' Hb) as L. cbn [snd] in L.
+        eexists; eexists; cbn [decl_name]; split; [reflexivity|split; [exact L|try rewrite L; reflexivity]].
+      + pose proof (eval_assign _ _ _ _ _ E') as L. cbn [snd] in L.
+        eexists; eexists; cbn [decl_name]; split; [reflexivity|split; [exact L|reflexivity]].
+  Qed.
+
+  Lemma exec_stmt_SOut_fail : forall s e o c1,
+    eval (s_cfg s) e = (o, c1) -> is_ok o = false ->
+    is_rok (snd (exec_stmt eval s (SOut e))) = false.
+  Proof.
+    intros s e o [st1 fr1] E Ho. cbn [exec_stmt]. rewrite E.
+    destruct o; cbn in Ho; try discriminate;
+      repeat match goal with
+             | |- context [match ?x with _ => _ end] => destruct x
+             end; reflexivity.
   Qed.
 
   (* one successful statement *)
@@ -379,14 +380,12 @@ Section Outputs.
       apply eval_ext in E. repeat split; auto.
       + intros x v Hx. eapply ext_lookup; eauto.
       + intros x Hx; discriminate.
-    - rewrite exec_stmt_SOut in *.
-      destruct (eval (s_cfg s) e) as [o [st1 fr1]] eqn:E.
+    - destruct (eval (s_cfg s) e) as [o [st1 fr1]] eqn:E.
       assert (ext (snd (s_cfg s)) fr1) as Hext by (apply eval_ext in E; exact E).
       destruct o as [w| | | |].
-      2-5: exfalso; destruct (decl_of e fr1 _) as [[x v]|];
-           [destruct (validate_portable st1 fr1 v)|]; cbn in Hok; discriminate.
-      destruct (decl_of_binding _ _ _ _ _ E Hb) as (x & v & Hn & Hd & Hl).
-      rewrite Hd in *. rewrite Hn.
+      2-5: rewrite (exec_stmt_SOut_fail _ _ _ _ E eq_refl) in Hok; discriminate.
+      destruct (exec_stmt_SOut_ok _ _ _ _ _ E Hb) as (x & v & Hn & Hl & Hx).
+      rewrite Hx in *. rewrite Hn.
       destruct (validate_portable st1 fr1 v); cbn [fst snd is_rok] in Hok; [|discriminate].
       cbn [fst snd s_cfg s_outputs]. unfold out_insert. repeat split.
       + intros y u Hy. eapply insert_bound; eauto.
@@ -394,6 +393,7 @@ Section Outputs.
       + intros y Hy. inversion Hy; subst y. exists v. rewrite rec_get_insert, String.eqb_refl. auto.
     - cbn [exec_stmt fst snd decl_name]. repeat split; auto. intros x Hx; discriminate.
   Qed.
+
   Lemma run_cons_ok : forall s t rest,
     is_rok (snd (exec_stmt eval s t)) = true ->
     fst (run eval s (t :: rest)) = fst (run eval (fst (exec_stmt eval s t)) rest).
